@@ -54,3 +54,41 @@ Definition sel_case_ok (c : sel_case) : bool :=
 
 Definition sel_mismatches (cs : list sel_case) : list N :=
   map sc_id (filter (fun c => negb (sel_case_ok c)) cs).
+
+(* ---- C03: range-window correspondence ---------------------------------- *)
+From Verif Require Import Range.
+
+Record rng_case := mkRngCase {
+  rc_id : N; rc_window : window; rc_range : Z; rc_off : Z; rc_pinned : bool;
+  rc_kind : nat;                            (* 0 = count_over_time, 1 = last_over_time *)
+  rc_series : list (list sample);
+  rc_expected : list (list (Z * Z)) }.      (* per series: (t, count) or (t, value bits) *)
+
+Definition rng_value (kind : nat) (w : list point) : option Z :=
+  match rev w with
+  | [] => None
+  | (_, v) :: _ => Some (match kind with O => Z.of_nat (List.length w) | _ => v end)
+  end.
+
+Definition rng_series_model (c : rng_case) (ss : list sample) : list (Z * Z) :=
+  let w := rc_window c in
+  if rc_pinned c then
+    (* step-invariant: one evaluation on [start,start], replicated over the grid *)
+    let '(_, ws) := ms_scan (rc_range c) (rc_off c) (w_step w) (ms_reset ss (rc_range c)) [w_start w] in
+    match ws with
+    | w0 :: _ => match rng_value (rc_kind c) w0 with
+                 | Some v => map (fun t => (t, v)) (grid w)
+                 | None => []
+                 end
+    | [] => []
+    end
+  else
+    let '(_, ws) := ms_scan (rc_range c) (rc_off c) (w_step w) (ms_reset ss (rc_range c)) (grid w) in
+    flat_map (fun tw => match rng_value (rc_kind c) (snd tw) with Some v => [(fst tw, v)] | None => [] end)
+             (combine (grid w) ws).
+
+Definition rng_case_ok (c : rng_case) : bool :=
+  list_eqb (list_eqb zz_eqb) (map (rng_series_model c) (rc_series c)) (rc_expected c).
+
+Definition rng_mismatches (cs : list rng_case) : list N :=
+  map rc_id (filter (fun c => negb (rng_case_ok c)) cs).
